@@ -6,7 +6,25 @@ import Tahoe.Generated.Mutpublish
     The model is the code with fixes/C09-update-stale-node-size.diff and
     fixes/C09-sdmf-update-past-eof.diff applied.  `WF cfg v` says that the version was published by a
     client with configuration `cfg` (segment size = `next_multiple(DEFAULT_MUTABLE_MAX_SEGMENT_SIZE | len, k)`);
-    it is established by `create` and preserved by every operation (`history_refines_bytes` carries it). -/
+    it is established by `create` and preserved by every operation (`history_refines_bytes` carries it).
+
+    ## Coverage of the statement (clauses of C09 in properties.jsonl → theorems about the model)
+
+    | clause | where |
+    |---|---|
+    | any sequence of operations by one client: create, overwrite, modify, update/append; content after each successful operation = the operations applied in order to a byte string | `history_refines_bytes` (all op lists, any modifier function, induction over the history), `publish_stores_data` |
+    | … in SDMF or MDMF format | all theorems are for `Fmt.sdmf` and `Fmt.mdmf` (`update_is_splice` has both branches; `update_past_eof_sdmf`) |
+    | … of any size including multi-segment files | no bound on content, offsets, lengths or segment size anywhere; segment arithmetic: `transforming_read_correct`, `update_is_splice`, `read_range_slice` |
+    | in-place update or append at any offset | `update_is_splice` (`off ≤ size`, append at `off = size`), `update_past_eof_sdmf` (`off > size`, SDMF), `update_refused` (exactly which starts the code refuses with an exception) |
+    | each read after a successful operation returns those bytes (whole read) | `history_reads_refine`, `read_to_end` |
+    | … (`read(offset, size)`, Retrieve's segment selection, `_decode_blocks` tail trimming, `_set_segment` head/tail trimming) | `read_range_slice`, `decode_blocks_is_stored_segment`, `history_reads_refine` |
+    | an in-place update changes only the bytes it writes | `update_changes_only_written_bytes` (pointwise), `update_is_splice` |
+    | extending the file if it writes past the end | `update_changes_only_written_bytes` (length = `max size (off+len)`), `update_past_eof_sdmf` |
+    | and leaves every other byte intact | `update_changes_only_written_bytes` (bytes before `off` and from `off+len` on) |
+    | the boundary merge inside the updater (old prefix/suffix of the boundary segments, publisher's segment lengths; agreement of `_do_update_update` and `setup_encoding_parameters` on start/end segments) | `transforming_read_correct`, `updater_and_publisher_agree` |
+    | quantifier "every server response ordering" (schedules) | correspondence only: the model abstracts publish/servermap networking ("publish succeeded ⇒ shares hold the version", C47/C11); the harness runs every history under a seeded random/fifo/lifo delivery order |
+    | hash-tree reshaping at power-of-two segment counts, FEC, AES, share layout | correspondence only (reads on the grid validate block/share hash trees and decode real shares); the model keeps per-segment plaintext and the decoder's padding only |
+    | stale `node.get_size()` (the defect repaired by the fix diff) | monitor + correspondence (the model has no node-level cache: it takes the length from the version, as the repaired code does) | -/
 namespace Tahoe.C09
 open Tahoe.Mutable.Content
 
@@ -32,6 +50,35 @@ example : ∃ v, publishAll ⟨2, 4⟩ .mdmf [1, 2, 3, 4, 5, 6, 7, 8, 9, 10] = s
     ∧ (update ⟨2, 4⟩ v 7 [100, 101, 102, 103, 104, 105, 106]).toOption.map (·.content)
         = some [1, 2, 3, 4, 5, 6, 7, 100, 101, 102, 103, 104, 105, 106] :=
   ⟨_, rfl, rfl, by decide, by decide, by decide⟩
+
+/-- **An update changes only the bytes it writes** and extends the file when it writes past the end:
+    under the guard of `update_is_splice`, the new length is `max size (off+len)`, byte `off+i` is
+    `data[i]`, and every byte before `off` and from `off+len` on is the old byte (absent where the old
+    file had none). -/
+theorem update_changes_only_written_bytes (cfg : Cfg) (v : Version) (off : Nat) (data : Bytes)
+    (hk : 0 < cfg.k) (hm : 0 < cfg.maxSeg) (wf : WF cfg v)
+    (hpos : 0 < v.content.length) (hoff : off ≤ v.content.length)
+    (hb : v.fmt = .mdmf → ¬ (off = v.content.length ∧ off % v.segsize = 0)) :
+    ∃ v', update cfg v off data = .ok v'
+      ∧ v'.content.length = max v.content.length (off + data.length)
+      ∧ (∀ i, i < off → v'.content[i]? = v.content[i]?)
+      ∧ (∀ i, i < data.length → v'.content[off + i]? = data[i]?)
+      ∧ (∀ i, off + data.length ≤ i → v'.content[i]? = v.content[i]?) := by
+  obtain ⟨v', h1, h2, _, _⟩ := update_spec cfg v off data hk hm wf hpos (fun hf => ⟨hoff, hb hf⟩)
+  rw [← splice_eq_spec _ _ _ hoff] at h2
+  refine ⟨v', h1, by rw [h2, length_splice _ _ _ hoff], ?_, ?_, ?_⟩
+  · intro i hi; rw [h2, getElem?_splice _ _ _ _ hoff, if_pos hi]
+  · intro i hi
+    rw [h2, getElem?_splice _ _ _ _ hoff, if_neg (by omega), if_pos (by omega)]
+    congr 1; omega
+  · intro i hi; rw [h2, getElem?_splice _ _ _ _ hoff, if_neg (by omega), if_neg (by omega)]
+
+-- a write ending exactly on a segment boundary before EOF (publisher's vs updater's end segment), and a
+-- write from an earlier segment into the tail segment short of EOF (the end segment must be fetched)
+example : (update ⟨2, 4⟩ ⟨.mdmf, 4, [1, 2, 3, 4, 5, 6, 7, 8, 9, 10, 11]⟩ 2 [100, 101, 102, 103, 104, 105]).toOption.map (·.content)
+      = some [1, 2, 100, 101, 102, 103, 104, 105, 9, 10, 11]
+    ∧ (update ⟨2, 4⟩ ⟨.mdmf, 4, [1, 2, 3, 4, 5, 6, 7, 8, 9, 10, 11]⟩ 3 [100, 101, 102, 103, 104, 105, 106]).toOption.map (·.content)
+      = some [1, 2, 3, 100, 101, 102, 103, 104, 105, 106, 11] := ⟨by decide, by decide⟩
 
 /-- SDMF (with the zero-fill repair): a write that starts beyond the end puts the data at `off`,
     keeps the old bytes and fills the gap with zeros. -/
@@ -115,29 +162,84 @@ theorem transforming_read_correct (old data : Bytes) (seg off : Nat) (hseg : 0 <
 example : pushLoop TU.read 3 4 2 0 2 (TU.init [100, 101, 102] 3 4 [1, 2, 3, 4] [5, 6, 7, 8])
     = some [[1, 2, 3, 100], [101, 102, 7, 8]] := by decide
 
+/-- **The updater's and the publisher's segment arithmetic agree.**  Take `start_segment`/`end_segment`
+    exactly as `_do_update_update` computes them (`updateRange`: the two old segments given to
+    TransformingUploadable; `end_segment` is the segment of the last written byte when the write stops
+    short of EOF) and the publisher's `starting_segment`/`end_segment` exactly as
+    `setup_encoding_parameters` computes them (`pubEndSegment`; `c` = number of segments pushed).  Then the
+    publisher stays inside the new file, covers every written byte, and its reads are exactly the segments
+    of `old[:off] ++ data ++ old[off+len:]`.  (A change of either site alone — e.g. not subtracting 1 when
+    the write ends on a segment boundary, or not fetching the end segment for a write ending inside the
+    tail segment — falsifies this statement.) -/
+theorem updater_and_publisher_agree (old data : Bytes) (seg off : Nat) (hseg : 0 < seg)
+    (hpos : 0 < old.length) (hoff : off ≤ old.length)
+    (hstart : off / seg < numSegments old.length seg) :
+    let r := updateRange old.length seg off data.length
+    let D := max old.length (off + data.length)
+    let c := (pubEndSegment D seg (off + data.length) + 1 - ((off / seg : Nat) : Int)).toNat
+    r.1 = off / seg ∧ r.1 + c ≤ numSegments D seg ∧ off + data.length ≤ (r.1 + c) * seg
+      ∧ pushLoop TU.read (numSegments D seg) seg (tailSize D seg) r.1 c
+          (TU.init data off seg (segmentOf old seg r.1)
+            (if r.2 < 0 then [] else segmentOf old seg r.2.toNat))
+        = some ((List.range' r.1 c).map fun j =>
+            slice (splice old off data) (j * seg) (j * seg + want (numSegments D seg) seg (tailSize D seg) j)) := by
+  intro r D c
+  obtain ⟨c', hc, h1, h2, h3⟩ := updater_publisher_agree old data seg off hseg hpos hoff hstart
+  have hcc : c = c' := hc
+  rw [hcc]
+  exact ⟨rfl, h1, h2, h3⟩
+
+-- the two boundary shapes: a write ending exactly on a segment boundary before EOF pushes one segment
+-- (not two), a write from segment 0 into the tail segment short of EOF uses the tail segment as `_end`
+example : (pubEndSegment 11 4 8 + 1 - ((4 / 4 : Nat) : Int)).toNat = 1
+    ∧ updateRange 11 4 4 4 = (1, 1)
+    ∧ updateRange 11 4 3 7 = (0, 2)
+    ∧ pushLoop TU.read 3 4 3 0 3 (TU.init [100, 101, 102, 103, 104, 105, 106] 3 4 [1, 2, 3, 4] [9, 10, 11])
+        = some [[1, 2, 3, 100], [101, 102, 103, 104], [105, 106, 11]] := ⟨by decide, by decide, by decide, by decide⟩
+
 /-- **read(offset, size) is the slice.**  `MutableFileVersion.read(consumer, offset, size)` of a valid
     range returns `content[offset : offset+size]`, whatever the segment size (Retrieve's
     `_start_segment`/`_last_segment` and `_set_segment` head/tail trimming). -/
-theorem read_range_slice (v : Version) (off size : Nat) (hseg : 0 < v.segsize) (hsize : 0 < size)
+theorem read_range_slice (k : Nat) (v : Version) (off size : Nat) (hseg : 0 < v.segsize) (hsize : 0 < size)
     (hlen : off + size ≤ v.content.length) :
-    read v off (some size) = .ok ((v.content.drop off).take size) := by
-  rw [read_spec v off size hseg hsize hlen]
+    read k v off (some size) = .ok ((v.content.drop off).take size) := by
+  rw [read_spec k v off size hseg hsize hlen]
   congr 1
   simp only [slice]
   rw [List.drop_take]
   congr 1; omega
 
 /-- `read(consumer, offset)` (size = None) returns everything from `offset`; an empty range is empty. -/
-theorem read_to_end (v : Version) (off : Nat) (hseg : 0 < v.segsize) (hoff : off ≤ v.content.length) :
-    read v off none = .ok (v.content.drop off) := by
+theorem read_to_end (k : Nat) (v : Version) (off : Nat) (hseg : 0 < v.segsize) (hoff : off ≤ v.content.length) :
+    read k v off none = .ok (v.content.drop off) := by
   by_cases h : off = v.content.length
   · subst h; simp [Mutable.Content.read]
-  · have := read_range_slice v off (v.content.length - off) hseg (by omega) (by omega)
+  · have := read_range_slice k v off (v.content.length - off) hseg (by omega) (by omega)
     simp only [Mutable.Content.read, hoff, if_true] at this ⊢
     rw [this, List.take_of_length_le (by simp)]
 
-example : read ⟨.mdmf, 4, [1, 2, 3, 4, 5, 6, 7, 8, 9, 10]⟩ 3 (some 6) = .ok [4, 5, 6, 7, 8, 9]
-    ∧ read ⟨.mdmf, 4, [1, 2, 3, 4, 5, 6, 7, 8, 9, 10]⟩ 5 none = .ok [6, 7, 8, 9, 10] := ⟨rfl, rfl⟩
+example : read 2 ⟨.mdmf, 4, [1, 2, 3, 4, 5, 6, 7, 8, 9, 10]⟩ 3 (some 6) = .ok [4, 5, 6, 7, 8, 9]
+    ∧ read 2 ⟨.mdmf, 4, [1, 2, 3, 4, 5, 6, 7, 8, 9, 10]⟩ 5 none = .ok [6, 7, 8, 9, 10]
+    -- a range that ends in a non-final segment beyond the tail length (the shape a wrong tail test breaks)
+    ∧ read 3 ⟨.mdmf, 6, [1, 2, 3, 4, 5, 6, 7, 8, 9, 10, 11, 12, 13]⟩ 1 (some 5) = .ok [2, 3, 4, 5, 6]
+    ∧ read 3 ⟨.mdmf, 6, [1, 2, 3, 4, 5, 6, 7, 8, 9, 10, 11, 12, 13]⟩ 5 (some 7) = .ok [6, 7, 8, 9, 10, 11, 12]
+    -- SDMF: one segment of next_multiple(len, k) bytes
+    ∧ read 3 ⟨.sdmf, 12, [1, 2, 3, 4, 5, 6, 7, 8, 9, 10]⟩ 4 (some 3) = .ok [5, 6, 7]
+    -- outside the guard the code refuses (precondition of `_start_download`)
+    ∧ read 2 ⟨.mdmf, 4, [1, 2, 3]⟩ 2 (some 5) = .error .assertion
+    ∧ read 2 ⟨.mdmf, 4, [1, 2, 3]⟩ 7 none = .error .assertion := ⟨rfl, rfl, rfl, rfl, rfl, rfl, rfl⟩
+
+/-- **`_decode_blocks` returns the stored segment.**  For every segment of the file, cutting the
+    decoder's padded output to `size_to_use` (`_tail_data_size` exactly for the file's last segment,
+    `segsize` otherwise) gives back the bytes the publisher pushed, for every `k`. -/
+theorem decode_blocks_is_stored_segment (content : Bytes) (seg k i : Nat) (hseg : 0 < seg)
+    (hi : i < numSegments content.length seg) :
+    decodeBlocks content seg k i = slice content (i * seg) (i * seg + seg) :=
+  decodeBlocks_eq content seg k i hseg hi
+
+example : decodedJoined [1, 2, 3, 4, 5, 6, 7, 8] 6 3 1 = [7, 8, 0]         -- tail decoder: next_multiple(2, 3) bytes
+    ∧ decodeBlocks [1, 2, 3, 4, 5, 6, 7, 8] 6 3 1 = [7, 8]
+    ∧ decodeBlocks [1, 2, 3, 4, 5, 6, 7, 8] 6 3 0 = [1, 2, 3, 4, 5, 6] := ⟨rfl, rfl, rfl⟩
 
 /-- **Histories refine the byte-string fold.**  For every operation list (create / overwrite / modify
     with any modifier / update, either format) started from a client-published state, the content
@@ -153,6 +255,34 @@ example : (run ⟨2, 4⟩ none [.create .mdmf [1, 2, 3, 4, 5], .update 5 [6, 7, 
       .update 20 [1], .modify (fun old => some (old ++ [42])), .overwrite [7]]).map (fun r => (r.1, contentOf r.2))
     = [(true, [1, 2, 3, 4, 5]), (true, [1, 2, 3, 4, 5, 6, 7, 8, 9]), (true, [1, 2, 0, 0, 0, 6, 7, 8, 9]),
        (false, [1, 2, 0, 0, 0, 6, 7, 8, 9]), (true, [1, 2, 0, 0, 0, 6, 7, 8, 9, 42]), (true, [7])] := by decide
+
+/-- **Every read after a history returns the folded bytes.**  If after operation `i` of any history the
+    file is version `v`, then `v.content` is the `i`-th value of the byte-string fold, and every valid
+    `read(offset, size)` / `read(offset)` of it returns that byte string's slice. -/
+theorem history_reads_refine (cfg : Cfg) (hk : 0 < cfg.k) (hm : 0 < cfg.maxSeg) (ops : List Op)
+    (st : Option Version) (wf : ∀ v, st = some v → WF cfg v) (i : Nat) (acc : Bool) (v : Version)
+    (hi : (run cfg st ops)[i]? = some (acc, some v)) :
+    (specRun (contentOf st) (((run cfg st ops).map (·.1)).zip ops))[i]? = some v.content
+    ∧ (∀ off size, 0 < size → off + size ≤ v.content.length →
+        read cfg.k v off (some size) = .ok ((v.content.drop off).take size))
+    ∧ (∀ off, off ≤ v.content.length → read cfg.k v off none = .ok (v.content.drop off)) := by
+  have hwf : WF cfg v :=
+    run_wf cfg hk hm ops st wf (acc, some v) (List.mem_of_getElem? hi) v rfl
+  refine ⟨?_, ?_, ?_⟩
+  · rw [← history_refines_bytes cfg hk hm ops st wf, List.getElem?_map, hi]; rfl
+  · intro off size hs hl
+    exact read_range_slice cfg.k v off size (wf_segsize_pos cfg v hk hm hwf (by omega)) hs hl
+  · intro off ho
+    by_cases h0 : v.content.length = 0
+    · have : off = 0 := by omega
+      subst this
+      have : v.content = [] := List.length_eq_zero_iff.mp h0
+      simp [Mutable.Content.read, this]
+    · exact read_to_end cfg.k v off (wf_segsize_pos cfg v hk hm hwf (by omega)) ho
+
+example : (run ⟨2, 4⟩ none [.create .mdmf [1, 2, 3, 4, 5], .update 5 [6, 7, 8, 9], .update 2 [0, 0, 0]])[2]?.map
+      (fun r => (r.1, r.2.map (fun v => (read 2 v 3 (some 5)).toOption)))
+    = some (true, some (some [0, 0, 6, 7, 8])) := by decide
 
 /-- a whole-file publish (create / overwrite / changed modify) stores exactly the new bytes -/
 theorem publish_stores_data (cfg : Cfg) (fmt : Fmt) (data : Bytes) (hk : 0 < cfg.k) (hm : 0 < cfg.maxSeg) :
